@@ -193,14 +193,23 @@ func (g *docGen) layoutStyle() string {
 func (g *docGen) linkKids(kids []*cnode, parentK string) {
 	for i, c := range kids {
 		c.leftK, c.rightK = parentK, parentK
-		if i > 0 {
-			c.leftK = kids[i-1].k
+		// what a reader sees next to the text: comments and hidden elements are not there at all
+		for j := i - 1; j >= 0; j-- {
+			if !unseen[kids[j].k] {
+				c.leftK = kids[j].k
+				break
+			}
 		}
-		if i+1 < len(kids) {
-			c.rightK = kids[i+1].k
+		for j := i + 1; j < len(kids); j++ {
+			if !unseen[kids[j].k] {
+				c.rightK = kids[j].k
+				break
+			}
 		}
 	}
 }
+
+var unseen = map[string]bool{"CMT": true, "HID": true, "HIN": true}
 
 func (g *docGen) kidsHTML(n *cnode) string {
 	g.linkKids(n.kids, n.k)
